@@ -74,7 +74,11 @@ pub fn for_each_case<F: FnMut(&serde_json::Value) -> serde_json::Value>(mut f: F
         *started.lock().unwrap() = Some(std::time::Instant::now());
         let r = f(&v);
         *started.lock().unwrap() = None;
-        writeln!(out.lock().unwrap(), "{}", r).unwrap();
+        // flushed per case: when a later case aborts the process, the results so far must not be lost
+        // (the caller attributes the crash to the first case without a result)
+        let mut o = out.lock().unwrap();
+        writeln!(o, "{}", r).unwrap();
+        o.flush().unwrap();
     }
     out.lock().unwrap().flush().unwrap();
 }
